@@ -161,7 +161,7 @@ def judge(ctx, name, path, par, leg_env):
 def dynamic_legs(ctx, q):
     stuck_all = []
     par = 4 if q else 12
-    genv = {"NCASES": 6 if q else 60}
+    genv = {"NCASES": 12 if q else 66}
     g, stuck, _ = run_leg(ctx, "TestVerifC09Gate", genv, "G-gate")
     stuck_all += stuck
     judge(ctx, "G-gate", g, par if not q else 3, genv)
